@@ -16,6 +16,7 @@ import Mathlib.Data.Rat.Floor
 import Mathlib.Order.Monotone.Basic
 import Mathlib.Tactic.Linarith
 import Fir.Proofs.IeeeLemmas
+import Fir.Proofs.SoftIeeeLemmas
 
 namespace Fir.C17
 open Fir.Gen
@@ -244,5 +245,30 @@ open Fir.Ieee Fir.Flt
 theorem float_to_int_monotone_ieee (lo m : ℚ) (hm : 0 ≤ m) (smin smax : ℤ) : Monotone (floatToInt (flP 24) lo m smin smax) :=
   float_to_int_monotone (flP 24) (flP_monotone 24 (by norm_num)) lo m hm smin smax
 end IeeeInstances
+
+section SoftIsIeee
+open Fir.Soft Fir.Ieee
+/-! ### the soft-float model is IEEE round-to-nearest-even -/
+
+/-- the executable binary32 rounding used by the complete-domain proofs above equals the mathematical
+    round-to-nearest-even to 24 bits, for all operands below 2^64 -/
+theorem soft_rounding_is_ieee (n d : ℕ) (hn : 1 ≤ n) (hd : 1 ≤ d) (hn2 : n < 2 ^ 64) (hd2 : d < 2 ^ 64) :
+    Fir.Proofs.valQ (rnd24 n d) = flP 24 ((n : ℚ) / d) :=
+  Fir.Proofs.rnd24_eq_flP_small n d hn hd hn2 hd2
+
+/-- `u8 / u16 -> f32` (`x as f32 / max as f32`) is the correctly rounded quotient `x / max`, for every
+    component depth below 2^24 - in particular monotone, 0 -> 0 and max -> 1 -/
+theorem unsigned_to_f32_correctly_rounded (max x : ℕ) (hx : 1 ≤ x) (hm : 1 ≤ max) (hx2 : x < 2 ^ 24) (hm2 : max < 2 ^ 24) :
+    Fir.Proofs.valQ (unsignedToF32 max x) = flP 24 ((x : ℚ) / max) := by
+  unfold unsignedToF32
+  exact Fir.Proofs.rnd24_eq_flP_small x max hx hm (lt_trans hx2 (by norm_num)) (lt_trans hm2 (by norm_num))
+
+/-- ... hence monotone in `x` for all depths (not only on the two complete domains evaluated above) -/
+theorem unsigned_to_f32_monotone (max x y : ℕ) (hx : 1 ≤ x) (hxy : x ≤ y) (hm : 1 ≤ max) (hy2 : y < 2 ^ 24) (hm2 : max < 2 ^ 24) :
+    Fir.Proofs.valQ (unsignedToF32 max x) ≤ Fir.Proofs.valQ (unsignedToF32 max y) := by
+  unfold unsignedToF32
+  exact Fir.Proofs.rnd24_mono x y max hx hxy hm (lt_trans hy2 (by norm_num)) (lt_trans hm2 (by norm_num))
+
+end SoftIsIeee
 
 end Fir.C17
